@@ -22,7 +22,7 @@ def run(ctx, rep):
     table(ctx, rep)
     for impl in net.impls_present(ctx):
         loop_rules(ctx, rep, impl)
-    rep.floor("R7.2", 6 * len(net.impls_present(ctx)))
+    rep.floor("R7.2", 5 * len(net.impls_present(ctx)))
 
 
 def table(ctx, rep):
